@@ -53,3 +53,26 @@ Lemma ex_runs :
   run_linear 50 ex_prog [10] = ([(true, 20)], OUndef "div0") /\
   fst (run_x86 10 1000 ex_code [10]) = ([(true, 20)], OUndef "div0").
 Proof. repeat split; vm_compute; reflexivity. Qed.
+
+(* an AxCut program BEFORE linearization (the shape `shrink` produces for a `main` that calls nothing:
+   variables are used several times, nothing is dropped explicitly); the model of the linearizer inserts
+   the explicit substitutions, and its output meets every x86-side hypothesis of
+   C01_compile_correct_int_partial *)
+Definition ex_named : prog :=
+  mkp [mkd (id_ "main" 0) [ib "x" 1; ib "u" 2]
+        (Literal 1 (id_ "one" 3)
+        (Op (id_ "x" 1) Sum (id_ "one" 3) (id_ "y" 4)
+        (PrintI64 true (id_ "y" 4)
+        (IfC Le (id_ "y" 4) None
+           (Exit (id_ "x" 1))
+           (Op (id_ "y" 4) Prod (id_ "y" 4) (id_ "q" 5)
+           (PrintI64 false (id_ "q" 5)
+           (Exit (id_ "y" 4))))))))] [] 5.
+Definition ex_named_code : list xcode :=
+  match x86_compile (linearize ex_named) 0 with Ok (cs, _, _) => cs | Err _ => [] end.
+Lemma ex_named_hypotheses :
+  prog_ok ex_named = true /\ int_frag (linearize ex_named) = true /\ plain_names (linearize ex_named) = true /\
+  (exists n lc', x86_compile (linearize ex_named) 0 = Ok (ex_named_code, n, lc')) /\ asm_wf ex_named_code = None /\
+  run_named 50 ex_named [6; 0] = ([(true, 7); (false, 49)], OExit 7) /\
+  fst (run_x86 10 1000 ex_named_code [6; 0]) = ([(true, 7); (false, 49)], OExit 7).
+Proof. repeat split; try (vm_compute; reflexivity). eexists _, _. vm_compute. reflexivity. Qed.
